@@ -96,6 +96,13 @@ func TestC07Guard(t *testing.T) {
 		{K: "areplace", M: mDepot, A: 1, B: 3, V: 2, R: "Parcels"},
 		{K: "updates", M: mParcel, A: 1, V: 5},
 		{K: "find", M: mParcel},
+		{K: "spell", M: mGadget, A: 2, B: 0, V: 0},
+		{K: "spell", M: mGadget, A: 2, B: 1, V: 2},
+		{K: "spell", M: mBook, A: 2, B: 2, V: 3},
+		{K: "spell", M: mGadget, A: 2, B: 3, V: 0},
+		{K: "spell", M: mAuthor, A: 2, B: 4, V: 2},
+		{K: "spell", M: mParcel, A: 2, B: 5, V: 5},
+		{K: "spell", M: mGadget, A: 7, B: 6, V: 1},
 	}
 	// operations that must fail, with the database's error
 	bad := map[string]string{
@@ -105,7 +112,7 @@ func TestC07Guard(t *testing.T) {
 		"badcol(Gadget 1 v1)":   "err=no such column: no_such_column_1",
 	}
 	script = append(script, Op{K: "badraw", M: mGadget, A: 1, V: 1}, Op{K: "badtable", M: mGadget, A: 1, V: 2}, Op{K: "badexec", M: mGadget, A: 1}, Op{K: "badcol", M: mGadget, A: 1, V: 1})
-	for _, cfg := range []Case{{G: 1, Warm: "cold"}, {G: 1, Warm: "query", Prepare: true, SkipTx: true}} {
+	for _, cfg := range []Case{{G: 1, Warm: "cold"}, {G: 1, Warm: "query", Prepare: true, SkipTx: true}, {G: 1, Warm: "one", WarmOne: mTag, Sess: "call"}, {G: 1, Warm: "parse", Sess: "goroutine", SkipTx: true}} {
 		c := cfg
 		c.Programs = [][]Op{script}
 		first := runSerial(&c)
